@@ -45,12 +45,13 @@ RULE = ('sequences of 1-9 blocks of compatible raster-aligned events (block/sinc
         'extended trapezoids also with tt[0]>0, arbitrary gradients, ADCs, triggers, labels, delays, plain-float delays) on 5 '
         'raster families (8 in total, three with pairwise different rasters) with random dead/ring-down times; 50% of the histories '
         'overwrite 1-3 blocks with set_block AFTER decoding consumers warmed the block cache (new events, or the same events / the '
-        'same pre-registered ids / a pure delay with only the padding changed); event counters of duration(); padded '
+        'same pre-registered ids / a pure delay with only the padding changed); event counters of duration(); 30% of the sequences are created with set_block under gapped, non-ascending block numbers '
+        '(timeline = insertion order); padded '
         'sequences are written and re-read. Oracle (exact Fractions): stored duration == latest end over the input events == '
         'pp.calc_duration(*events) == pp.calc_duration(get_block); duration() total and count; every ADC sample time, RF '
         'centre time and gradient corner time of waveforms_and_times / rf_times / adc_times (also with time_range windows that start in the first block, at 0 and at random, incl. waveforms(time_range)) and '
         'the t_* outputs of calculate_kspace == prefix sum of the durations + the in-block time; TotalDuration and the '
-        '[BLOCKS] column of the written file; durations after re-reading. Correspondence: set_block_duration, calc_duration, '
+        '[BLOCKS] column of the written file; durations after re-reading, also into an object created for another block raster (x2, /2, x1.5, x4) and written again: the new file\'s [BLOCKS] integers x its BlockDurationRaster and TotalDuration must still be the stored durations. Correspondence: set_block_duration, calc_duration, '
         'starts, adc/rf times, gradient piece ends and the [BLOCKS] integers of the extracted Coq model. '
         'non-trivial = at least 2 blocks with >= 2 timed events each or an overwritten block')
 TRUSTED = ['calc_rf_center and the in-event time vectors (rf.t, grad.tt) are taken from the implementation',
@@ -673,7 +674,8 @@ def corpus():
 def run(ctx):
     n = {'quick': 450, 'thorough': 15000}[ctx.tier]
     rng = ctx.rng('sequences')
-    cases = corpus() + [gen_case(rng) for _ in range(n)]
+    import itertools
+    cases = itertools.chain(corpus(), (gen_case(rng) for _ in range(n)))     # lazily: time-boxed runs
     pending = []
     for i, case in enumerate(cases):
         if ctx.out_of_time():
